@@ -647,3 +647,66 @@ Proof.
     + destruct (node_same out cur (DSym t f)) as [[|]|]; try discriminate; try reflexivity.
       subst f. reflexivity.
 Qed.
+
+(* ------------------------------------------------------------------ corollaries in the wording of the property *)
+(* "none of the snap's managed files remain (provided removal itself succeeds)": if nothing in the directory is a non-empty
+   directory, a failed change phase leaves NO entry under the managed names *)
+Theorem fail_closed_all_gone : forall mt um out d content, NoDup (names d) -> NoDup (names content) ->
+  (forall n v, lookup d n = Some v -> removable v = true) ->
+  r_wfail (eds mt um out d content) = true ->
+  forall n, mt n = true -> lookup (r_dir (eds mt um out d content)) n = None.
+Proof.
+  intros mt um out d content NDd NDc REM W n M.
+  destruct (fail_closed mt um out d content NDd NDc W) as [_ [_ [A3 _]]]. rewrite A3, M. unfold stuck.
+  destruct (lookup d n) as [v|] eqn:L; [|reflexivity]. rewrite (REM n v L). reflexivity.
+Qed.
+
+(* permissions: a file with the right content but other permission bits is rewritten with the desired bits and reported
+   changed; with the same permission bits and content it is left alone and not reported *)
+Theorem mode_only_difference : forall mt um out d content n c m m' f, NoDup (names d) -> NoDup (names content) ->
+  r_err (eds mt um out d content) = false ->
+  lookup content n = Some (DReg c m f) -> lookup d n = Some (Reg c m') ->
+  (perm m <> perm m' ->
+     In n (r_changed (eds mt um out d content)) /\ lookup (r_dir (eds mt um out d content)) n = Some (Reg c (N.ldiff (perm m) um)))
+  /\ (perm m = perm m' ->
+     ~ In n (r_changed (eds mt um out d content)) /\ lookup (r_dir (eds mt um out d content)) n = Some (Reg c m')).
+Proof.
+  intros mt um out d content n c m m' f NDd NDc Herr LC LD.
+  pose proof (success_valid _ _ _ _ _ Herr) as V.
+  assert (M : mt n = true) by (eapply valid_input_mt; [eassumption | eapply lookup_Some_names; eassumption]).
+  destruct (success_exact mt um out d content NDd NDc Herr) as [_ [B [C _]]].
+  specialize (B n M). rewrite LC in B. destruct B as [v [Lv B]].
+  assert (IS : in_state out (lookup d n) (DReg c m f) = ((perm m =? perm m') && true)).
+  { rewrite LD. unfold in_state. cbn. unfold same_reg. rewrite beq_refl. destruct (perm m =? perm m'); reflexivity. }
+  split; intro P.
+  - assert (IS' : in_state out (lookup d n) (DReg c m f) = false).
+    { rewrite IS. apply N.eqb_neq in P. rewrite P. reflexivity. }
+    split; [apply C; exists (DReg c m f); tauto|].
+    destruct B as [[E IS2] | [E _]]; [|rewrite Lv, E; reflexivity].
+    rewrite LD in E. inversion E; subst v. rewrite <- LD in IS2. congruence.
+  - assert (IS' : in_state out (lookup d n) (DReg c m f) = true).
+    { rewrite IS. rewrite P, N.eqb_refl. reflexivity. }
+    split.
+    + intro I. apply C in I. destruct I as [ds [L2 I]]. rewrite LC in L2. inversion L2; subst ds. congruence.
+    + destruct B as [[E _] | [_ IS2]]; [rewrite Lv, <- E; assumption | congruence].
+Qed.
+
+(* when every entry is removable (files and symlinks, empty directories), an error can only come from the change phase *)
+Lemma written_removable : forall um ds, removable (written um ds) = true.
+Proof. intros um [c m f|t f|f]; reflexivity. Qed.
+Lemma err_is_wfail : forall mt um out d content, NoDup (names d) -> NoDup (names content) ->
+  (forall n v, lookup d n = Some v -> removable v = true) ->
+  r_err (eds mt um out d content) = true -> valid_input mt content = true -> r_wfail (eds mt um out d content) = true.
+Proof.
+  intros mt um out d content NDd NDc REM E V. apply eds_wfail_iff; try assumption. split; [assumption|].
+  destruct (wl_fail um out d content) eqn:WF; [reflexivity|]. exfalso.
+  destruct (eds_ok_form mt um out d content NDd NDc V WF) as [d1 [AW [ND1 F]]]. rewrite F in E. cbn [r_err] in E.
+  destruct (erase_loop_spec mt (names content) d1 ND1) as [_ [_ [S3 _]]]. apply S3 in E. destruct E as [n [v [_ [_ [L R]]]]].
+  rewrite AW in L. unfold after_write in L.
+  destruct (lookup content n) as [ds|] eqn:LC.
+  - pose proof (efs_cases um out (lookup d n) ds) as EC. destruct (efs um out (lookup d n) ds) eqn:EF.
+    + rewrite (REM n v L) in R. discriminate.
+    + inversion L; subst v. destruct EC as [W _]. subst n0. rewrite written_removable in R. discriminate.
+    + rewrite (REM n v L) in R. discriminate.
+  - rewrite (REM n v L) in R. discriminate.
+Qed.
